@@ -297,6 +297,40 @@ impl RelaySender {
     }
 }
 
+/// Harness constructor (property C19): a [`RelaySender`] whose actor side is held by the caller.
+#[cfg(iroh_verif)]
+#[derive(Debug)]
+pub(crate) struct VerifRelayRx(mpsc::Receiver<RelaySendItem>);
+
+#[cfg(iroh_verif)]
+impl RelaySender {
+    pub(crate) fn verif_new(capacity: usize) -> (Self, VerifRelayRx) {
+        let (tx, rx) = mpsc::channel(capacity);
+        (
+            Self {
+                sender: PollSender::new(tx),
+            },
+            VerifRelayRx(rx),
+        )
+    }
+}
+
+#[cfg(iroh_verif)]
+impl VerifRelayRx {
+    /// The next item handed to the relay path: (relay url, remote endpoint, datagram bytes).
+    pub(crate) fn try_recv(&mut self) -> Option<(RelayUrl, EndpointId, Vec<u8>)> {
+        let item = self.0.try_recv().ok()?;
+        Some((
+            item.url,
+            item.remote_endpoint,
+            item.datagrams.contents.to_vec(),
+        ))
+    }
+    pub(crate) fn close(&mut self) {
+        self.0.close()
+    }
+}
+
 /// Translate a UDP transmit to the `Datagrams` type for sending over the relay.
 fn datagrams_from_transmit(transmit: &Transmit<'_>) -> Datagrams {
     Datagrams {
